@@ -199,6 +199,15 @@ def run(repo, rep, tier):
     from . import c17 as _c17
     L.borrow(repo, rep, "R07.5", "C17", _c17._meta_group_roles,
              ("meta-group-roles",))
+    # a static attribute keeps its place when data-* statements leave the
+    # attribute list (C18 owns the conversion); what decides the boolean
+    # set is part of the cache key (C15 owns the key)
+    from . import c18 as _c18
+    L.borrow(repo, rep, "R07.1", "C18", _c18._keyed,
+             ("data-prefix", "language-only"), minimum=2)
+    from . import c15 as _c15
+    L.borrow(repo, rep, "R07.5", "C15", _c15._coverage,
+             ("lossy-hash", "none-distinct"), minimum=2)
     L.state_rule(repo, rep)
 
 
@@ -1191,6 +1200,22 @@ def _defaults(repo, rep):
     rep.check(ok, "R07.5", site, "the HTML boolean attribute set is the "
               "default only outside XML mode and only when no explicit set "
               "was given", construct="html-defaults", where=L.where(f))
+    # ... and a set that was given applies in XML mode too: on every path
+    # through parse() the first value of the local is the option
+    okx = True
+    npaths = 0
+    for pth in P.enum_paths(f.node.body):
+        asg = [e for e in pth if e[0] == "assign"
+               and e[1] == "boolean_attributes"]
+        if not any(e[0] == "return" for e in pth):
+            continue
+        npaths += 1
+        if not asg or src(asg[0][2]) != "self.boolean_attributes":
+            okx = False
+    rep.check(okx and npaths >= 2, "R07.5", site, "the configured set of "
+              "boolean attributes is read on every path, whatever the "
+              "document type (XML documents have no default set, not no "
+              "set)", construct="explicit-set-any-mode", where=L.where(f))
     tab = repo.const("chameleon.zpt.template", "BOOLEAN_HTML_ATTRIBUTES")
     # (the list the source cites: XHTML 1.0, appendix C.10 -- the boolean
     # attributes of HTML 4; more names are fine, fewer are not)
